@@ -721,8 +721,11 @@ where
         self: &'a mut Pin<&mut Self>,
         cx: &mut Context<'_>,
     ) -> Poll<Option<Result<(), C::Error>>> {
-        while self.channel_pin_mut().poll_ready(cx)?.is_pending() {
+        if self.channel_pin_mut().poll_ready(cx)?.is_pending() {
+            // A flush may make room. If the channel is still not ready after a completed
+            // flush, it has registered the waker: return Pending instead of spinning.
             ready!(self.channel_pin_mut().poll_flush(cx)?);
+            ready!(self.channel_pin_mut().poll_ready(cx)?);
         }
         Poll::Ready(Some(Ok(())))
     }
